@@ -204,6 +204,10 @@ func (r *Run) constVal(c *ssa.Const) Value {
 			return r.ts.Bool(constant.BoolVal(c.Value))
 		case u.Info()&types.IsInteger != 0:
 			w := r.eng.width(t)
+			if r.ts.intMode {
+				bv, _ := new(big.Int).SetString(constant.ToInt(c.Value).ExactString(), 10)
+				return r.ts.IConst(bv)
+			}
 			if v, ok := constant.Uint64Val(constant.ToInt(c.Value)); ok {
 				return r.ts.Const(w, v)
 			}
@@ -250,7 +254,7 @@ func (r *Run) callFunction(fn *ssa.Function, args []Value, bindings []Value) (re
 		}
 		panic(unsupported("call to function without body: " + fn.String()))
 	}
-	if h := r.eng.intrinsic(fn); h != nil {
+	if h := r.eng.intrinsic(fn); h != nil && !r.bypass[fn] {
 		return h(r, fn, args)
 	}
 	info := r.eng.info(fn)
@@ -618,7 +622,7 @@ func (r *Run) doSelect(fr *Frame, x *ssa.Select) Value {
 		}
 	}
 	res := make(TupleV, 2+nrecv)
-	res[0] = r.ts.Const(64, ^uint64(0))
+	res[0] = r.constI64(-1)
 	res[1] = r.ts.Bool(false)
 	ri := 0
 	recvZero := func() {
@@ -1120,8 +1124,14 @@ func (r *Run) unop(fr *Frame, x *ssa.UnOp) Value {
 		if f, ok := v.(FloatV); ok {
 			return -f
 		}
+		if nv, ok := r.intUnop(token.SUB, v.(*Term), x.X.Type()); ok {
+			return nv
+		}
 		return r.ts.Neg(v.(*Term))
 	case token.XOR:
+		if nv, ok := r.intUnop(token.XOR, v.(*Term), x.X.Type()); ok {
+			return nv
+		}
 		return r.ts.Not(v.(*Term))
 	case token.ARROW:
 		c := v.(*ChanV)
@@ -1450,7 +1460,10 @@ func (r *Run) convert(v Value, from, to types.Type) Value {
 					}
 					return FloatV(float64(x.k))
 				}
-				panic(unsupported("symbolic int to float conversion"))
+				// floating point is not modelled: a symbolic integer converts to 0.0. In the code under test
+				// such values only feed message formatting (C06's work comparison is not applicable).
+				r.h.noteAssumption("float64(x) of a symbolic integer is 0.0 (floats only feed formatting in the encoded code)")
+				return FloatV(0)
 			case tb.Info()&types.IsString != 0:
 				if x.IsConst() {
 					return r.constStr(string(rune(sext64(x.k, x.w))))
